@@ -4,6 +4,7 @@ import SdJwt.Lemmas.IssuerL
 import SdJwt.Lemmas.Assoc
 import SdJwt.Lemmas.IssueAll
 import SdJwt.Lemmas.RefSound
+import SdJwt.Lemmas.MarkInv
 /-!
 # C07 — issued SD-JWTs are spec-conformant as judged by an independent verifier
 
@@ -136,3 +137,25 @@ theorem C07_ref_fuel (T : MJ) (wf : T.WF) (ndm : T.allMarks.Nodup) (tbl : List (
   have h1 := Ref.MJ.need_le (Ref.sel tbl) T wf
   have h2 := Ref.sumSel_le_tbl tbl T.discs (by rw [MJ.discs_digest]; exact ndm) htbl.own
   omega
+
+/-- **C07 in the model: what the issuer produces, judged by the independent verifier.**  For every
+conformant start tree, every marking the issuer performs (`markAll` defined — `C07_issue` shows
+the issuer model's payload is `Tn.payload`) and ANY selection `sub` of the issuer's disclosures
+(each with any salt, no digest twice), in any order: the specification's verification algorithm
+accepts and reconstructs exactly the issued tree's claims with those marked nodes present whose
+own and enclosing disclosures are selected — the expected subset for every subset; with all of
+them, the original claims (`Tn.plain = T.plain`). -/
+theorem C07_issued_ref (mk : Nat → Option String → J → String) (addr : List (List String × String))
+    (T Tn : MJ) (ds : List SDisc) (inv : TreeInv T) (h : markAll mk 0 addr T = some (Tn, ds))
+    (sub : List (SDisc × J)) (hsub : ∀ p ∈ sub, p.1 ∈ ds) (hnd : (sub.map (·.1.digest)).Nodup) :
+    Ref.verify false Tn.payload (Ref.tblOf sub) =
+      .ok (Ref.dropAlgJ (Tn.project (fun g => sub.any (fun p => p.1.digest = g)))) ∧
+    Tn.plain = T.plain := by
+  obtain ⟨invn, hst, _, pdi, pd⟩ := markAll_inv mk addr 0 T Tn ds inv h
+  have hndd : (ds.map (·.digest) ++ T.digests).Nodup := pd.nodup invn.nd
+  refine ⟨Ref.verify_own Tn invn.wf invn.nd invn.ndm sub (fun p hp => ⟨?_, ?_⟩) hnd,
+    markAll_plain mk addr 0 T Tn ds h⟩
+  · exact pdi.symm.subset (by simp [hsub p hp])
+  · intro hh
+    have h1 : p.1.digest ∈ T.digests := MJ.deepStale_sub_digests T _ (hst _ hh)
+    exact (List.nodup_append.mp hndd).2.2 p.1.digest (List.mem_map_of_mem (hsub p hp)) p.1.digest h1 rfl
